@@ -256,7 +256,11 @@ class _ReusablePoolExecutor(ProcessPoolExecutor):
 
             self._adjust_process_count()
             processes = list(self._processes.values())
-            while not all(p.is_alive() for p in processes):
+            # A worker that died in the meantime will never be alive again:
+            # stop waiting once the executor has been flagged as broken.
+            while not self._flags.broken and not all(
+                p.is_alive() for p in processes
+            ):
                 time.sleep(1e-3)
 
     def _wait_job_completion(self):
